@@ -319,14 +319,29 @@ func TestVerif_C10(t *testing.T) {
 		}
 		user, pass := fmt.Sprintf("secretuser%d", i), fmt.Sprintf("S3cr3t-Pa55-%d", r.intn(1<<30))
 		id, _ := module.GenerateMsgID()
+		// the metadata as the endpoint and the pipeline hand it over: the quarantine flag, the TLS-Required
+		// override (known only when the header has been read) and the original-recipient entries (one per
+		// RCPT) are set on the shared object after the queue's Start, some of the time
+		wantQuar, wantOverride := r.chance(10), r.chance(30)
+		late := r.chance(50)
 		meta := &module.MsgMetadata{
-			ID: id, OriginalFrom: from, Quarantine: r.chance(10), TLSRequireOverride: r.chance(30),
+			ID: id, OriginalFrom: from,
 			SMTPOpts:      smtp.MailOptions{UTF8: r.chance(60), RequireTLS: r.chance(30)},
 			OriginalRcpts: map[string]string{},
 			Conn:          &module.ConnState{Hostname: "client.example.org", Proto: "ESMTPSA", AuthUser: user, AuthPassword: pass},
 		}
+		origFor := map[string]string{}
 		if r.chance(40) {
-			meta.OriginalRcpts[to[0]] = "alias@example.org"
+			origFor[to[0]] = "alias@example.org"
+		}
+		if len(to) > 1 && r.chance(40) {
+			origFor[to[len(to)-1]] = "list@example.org"
+		}
+		if !late {
+			meta.Quarantine, meta.TLSRequireOverride = wantQuar, wantOverride
+			for k, v := range origFor {
+				meta.OriginalRcpts[k] = v
+			}
 		}
 		// first attempt: a strict subset refused temporarily at RCPT, or everybody at the body stage
 		if r.chance(30) {
@@ -346,7 +361,16 @@ func TestVerif_C10(t *testing.T) {
 			t.Fatal(err)
 		}
 		for _, rc := range to {
+			if late {
+				if o, ok := origFor[rc]; ok {
+					meta.OriginalRcpts[rc] = o
+				}
+			}
 			d.AddRcpt(ctx, rc, smtp.RcptOptions{})
+		}
+		if late {
+			meta.Quarantine, meta.TLSRequireOverride = wantQuar, wantOverride
+			stats["metadata-completed-after-start"]++
 		}
 		if err := d.Body(ctx, hdr, bodyBuf); err != nil {
 			t.Fatal(err)
